@@ -50,5 +50,32 @@ ADDITIONAL GUIDANCE FOR THIS ROUND: the obvious one-line edits in the most centr
     return base.replace("\nTASK:", extra + "\n\nTASK:", 1)
 
 
+def prompt3(pid: str) -> str:
+    """Round 3: as round 2, plus one line per change that was already tried for this property (so that effort goes
+    elsewhere), plus a sandbox warning (no git stash: the stash is shared by all worktrees)."""
+    import glob
+    import os
+
+    base = prompt2(pid).replace(f"/tmp/seed2-{pid}", f"/tmp/seed3-{pid}")
+    tried = []
+    for d in sorted(glob.glob(f"/verif/seeded/{pid}-*")):
+        try:
+            m = json.load(open(os.path.join(d, "meta.json"), encoding="utf-8"))
+        except (OSError, ValueError):
+            continue
+        first = (m.get("needs_to_manifest", "").splitlines() or [""])[0].lstrip("# ").strip()
+        if first:
+            tried.append("  - " + first[:160])
+    extra = (
+        "\n\nALREADY TRIED for this property by earlier rounds (do NOT repeat these or close variants of them; find other mechanisms):\n"
+        + "\n".join(tried)
+        + "\n\nSANDBOX NOTE: never use `git stash` (the stash is shared by every worktree of this repository and other people work in parallel); to go back to the pristine tree save your diff with `git diff > SEED/changeK.diff` and run `git checkout -- .`, to re-apply use `git apply SEED/changeK.diff`."
+    )
+    return base.replace("\n\nTASK:", extra + "\n\nTASK:", 1)
+
+
 if __name__ == "__main__":
+    if len(sys.argv) > 2 and sys.argv[2] == "3":
+        print(prompt3(sys.argv[1]))
+        sys.exit(0)
     print(prompt2(sys.argv[1]) if len(sys.argv) > 2 and sys.argv[2] == "2" else prompt(sys.argv[1]))
